@@ -41,6 +41,9 @@ type c15Case struct {
 	Store string        `json:"store"` // memory | file
 	Ops   []c15Op       `json:"ops"`
 	Fault *vfault.Fault `json:"fault,omitempty"`
+	// Names selects how the four entries are named (c15Name): names that differ in one component only,
+	// by a little or by a thousand, must still denote four separate entries
+	Names int `json:"names,omitempty"`
 }
 
 type c15Entry struct {
@@ -59,7 +62,22 @@ type c15Writer struct {
 
 const c15Entries = 4
 
-func c15Name(e int) (TaskName, int) {
+const c15NameSchemes = 6
+
+func c15Name(e, scheme int) (TaskName, int) {
+	switch scheme % c15NameSchemes {
+	case 1: // partitions beyond a thousand (a task partitioned more than 1000 ways)
+		return TaskName{InvIndex: 1, Op: "op", Shard: e / 2, NumShard: 2}, []int{3, 1003}[e%2]
+	case 2: // shards s and s+1000 of a slice of thousands of shards
+		return TaskName{InvIndex: 1, Op: "op", Shard: []int{7, 1007}[e/2], NumShard: 2500}, []int{0, 2000}[e%2]
+	case 3: // same operator and shard in different invocations (the compiler puts the invocation index into the
+		// operator name as well, which is what the file store relies on); shard counts that differ by a thousand
+		return TaskName{InvIndex: uint64([]int{1, 11}[e/2]), Op: []string{"inv1_op", "inv11_op"}[e/2], Shard: 1, NumShard: []int{12, 1012}[e%2]}, 0
+	case 4: // operator names that are prefixes of each other, partitions 9 / 10 / 99 / 100
+		return TaskName{InvIndex: 2, Op: []string{"inv2_map", "inv2_map1"}[e/2], Shard: 0, NumShard: 1}, []int{9, 10, 99, 100}[e]
+	case 5: // three- and four-digit shard numbers around the padding width
+		return TaskName{InvIndex: 3, Op: "op", Shard: []int{99, 100, 999, 1000}[e], NumShard: 1001}, 1
+	}
 	return TaskName{InvIndex: 1, Op: fmt.Sprintf("op%d", e/2), Shard: e / 2, NumShard: 2}, e % 2
 }
 
@@ -98,7 +116,7 @@ func c15Run(c c15Case, dir string) (err error) {
 	creating := map[int]bool{}
 	for step, op := range c.Ops {
 		e := op.E % c15Entries
-		task, part := c15Name(e)
+		task, part := c15Name(e, c.Names)
 		where := fmt.Sprintf("step %d (%s entry %d)", step, op.K, e)
 		// an error is excusable only if the injected fault hit an underlying file operation of this very step
 		firedBefore := vfault.Fired()
@@ -248,7 +266,7 @@ func c15Run(c c15Case, dir string) (err error) {
 			if en.state != 1 {
 				continue
 			}
-			task, part := c15Name(e)
+			task, part := c15Name(e, c.Names)
 			info, err := store.Stat(ctx, task, part)
 			if err != nil {
 				return fmt.Errorf("final sweep: Stat of committed entry %d failed: %v", e, err)
@@ -333,14 +351,15 @@ func TestVerifC15Stores(t *testing.T) {
 				committed = true
 			}
 		}
+		names := rapid.IntRange(0, c15NameSchemes-1).Draw(rt, "names")
 		for _, st := range []string{"memory", "file"} {
-			c := c15Case{Store: st, Ops: ops}
+			c := c15Case{Store: st, Ops: ops, Names: names}
 			d := fresh()
 			c15LastCounts = nil
 			err := c15Run(c, d)
 			counts := c15LastCounts
 			os.RemoveAll(d)
-			rec.Case(committed, vt.Hash(h, st), "store:"+st)
+			rec.Case(committed, vt.Hash(h, st, names), "store:"+st, fmt.Sprintf("names:%d", names))
 			if committed && rec.WantSample(st) {
 				rec.Sample(st, c)
 			}
@@ -359,7 +378,7 @@ func TestVerifC15Stores(t *testing.T) {
 							continue
 						}
 						f := &vfault.Fault{Kind: kind, N: k, Short: short}
-						fc := c15Case{Store: "file", Ops: ops, Fault: f}
+						fc := c15Case{Store: "file", Ops: ops, Fault: f, Names: names}
 						d := fresh()
 						err := c15Run(fc, d)
 						os.RemoveAll(d)
